@@ -13,7 +13,7 @@ RULE = ("breadth-first exploration of ALL histories up to the depth bound over a
         "Composition.from_sequences/to_sequences, merge, concatenate, transpose, cutoff, scale 2/3, copy, tokenise whole / "
         "bar-by-bar, detokenise) on a workspace (sequence A, sequence B, token list); invariant on every state: every time "
         "value in both views of A and B is of type int and every tick-carrying token renders an integer; "
-        "non-trivial = history through a padded bar or a split with remainder")
+        "non-trivial = the transition pads a bar, splits with a remainder, splits into bars or builds a composition")
 ASSUMPTIONS = ["bool and numpy integer types do not count as 'integer type' for ticks"]
 REQUIRED_FLAGS = ["bar_padded", "split_with_remainder", "tokens_checked", "detokenised", "bars_split", "composition_built",
                   "scaled", "wrapped_transpose"]
@@ -182,7 +182,15 @@ def build(seed_i, hist, ctx):
 
 
 def key_of(w, ctx):
-    return hash((lib.raw_repr(w[0]), lib.raw_repr(w[1]), tuple(w[2])))
+    # concatenate / Bar.to_sequence share Message objects between the two sequences: the aliasing pattern is part of
+    # the state (two workspaces with equal content but different sharing have different futures)
+    ids, alias = {}, []
+    for s in (w[0], w[1]):
+        for view in (None if s._abs_stale else s._abs, None if s._rel_stale else s._rel):   # fresh views only
+            if view is not None:
+                for m in view._messages:
+                    alias.append(ids.setdefault(id(m), len(ids)))
+    return hash((lib.raw_repr(w[0]), lib.raw_repr(w[1]), tuple(w[2]), tuple(alias)))
 
 
 def enabled(w, seed_i, hist, ctx):
@@ -223,8 +231,9 @@ def step(w, op, seed_i, hist, acc, ctx):
         hflags.add(flag)
     elif isinstance(flag, str):
         acc.outcomes.add(flag)
-    nontrivial = bool(hflags & {"bar_padded", "split_with_remainder"}) or \
-        any(h.startswith(("bar44", "split30", "bars_", "composition")) for h in hist)
+    # a property of the transition itself (not of the representative history): padding, a split with remainder,
+    # bar splitting or composition building happened in this step
+    nontrivial = bool(hflags & {"bar_padded", "split_with_remainder", "bars_split", "composition_built"})
     acc.case(key=None, nontrivial=nontrivial)
     acc.outcomes.add(op.split(":")[0] + (":ok" if ok else ":stop"))
     case = {"seed": seed_i, "hist": list(hist), "op": op}
